@@ -198,6 +198,49 @@ def coding2_fn(strand, table):
     return fn
 
 
+def isoforms_fn(strand, table):
+    """two coding isoforms with the SAME CDS start, end and start frame but first exons of different length (different length mod 3): each isoform's
+    CDS and mRNA carry the partial marks of ITS OWN reading frame"""
+    from harness.cdsmodel import consistent_frames
+
+    def fn(a1, a2, f0, ee):
+        a1, a2, f0, ee = concretize(a1, a2, f0, ee)
+        with untraced():
+            es, t = 0, 16
+            isos = []
+            for a in (a1, a2):
+                ex = [(es, es + a), (t, ee)] if strand is PLUS else [(es, es + (ee - t)), (ee - a, ee)]
+                lens = [e[1] - e[0] for e in ex]
+                isos.append((ex, lens, consistent_frames(lens, strand, f0)))
+            par = lambda: chrom_parent(GENOME)  # noqa: E731
+            txs = [TranscriptInterval([e[0] for e in ex], [e[1] for e in ex], strand, [e[0] for e in ex], [e[1] for e in ex], [CDSFrame(f) for f in fr],
+                                      transcript_id="tx%d" % i, sequence_name="chr1", parent_or_seq_chunk_parent=par()) for i, (ex, lens, fr) in enumerate(isos)]
+            gene = GeneInterval(txs, gene_id="gid", gene_symbol="sym", gene_type=Biotype.protein_coding, sequence_name="chr1", parent_or_seq_chunk_parent=par())
+            with warnings.catch_warnings():
+                warnings.simplefilter("ignore")
+                text = "\n".join(str(o) for o in TblGene(gene, "lab", "LT_5", TABLES[table]))
+            feats = read_tbl(text)
+            if feats is None or [f[0] for f in feats] != ["gene", "mRNA", "CDS", "mRNA", "CDS"]:
+                return False
+            for i, (ex, lens, fr) in enumerate(isos):
+                codons = ref_codon_positions([e[0] for e in ex], lens, strand, fr)
+                if not codons:
+                    continue
+                cstr = codon_strings(codons, GENOME, strand)
+                five = cstr[0] not in START_CODONS[table]
+                three = ((sum(lens) - f0) % 3 != 0) or cstr[-1] not in ("TAA", "TAG", "TGA")
+                pairs = [[str(x), str(y)] for x, y in expected_intervals(ex, strand)]
+                if five:
+                    pairs[0][0] = "<" + pairs[0][0]
+                if three:
+                    pairs[-1][1] = ">" + pairs[-1][1]
+                if feats[2 + 2 * i][1] != [tuple(p) for p in pairs] or feats[1 + 2 * i][1] != [tuple(p) for p in pairs]:
+                    return False
+            return True
+
+    return fn
+
+
 def coding_pre(es, el, co, cl, frame):
     return (0 <= es and es <= 2 and es + el <= 48 and 0 <= co and co <= 2 and 0 <= frame and frame <= 2
             and cl >= 3 + frame and cl <= 30 and (el - co - cl == 0 or el - co - cl == 2))
@@ -284,6 +327,37 @@ def locus_tags_fn():
     return fn
 
 
+def export_twice_fn():
+    """the SAME in-memory collection exported twice with the same seed: identical text, and the model is left as it was (export is a read-only question)"""
+    BT = [Biotype.rRNA, Biotype.tRNA, Biotype.ncRNA, Biotype.protein_coding, Biotype.lncRNA if hasattr(Biotype, "lncRNA") else Biotype.ncRNA]
+
+    def fn(b, two_exons, prod, flavor):
+        b, two_exons, prod, flavor = concretize(b, two_exons, prod, flavor)
+        with untraced():
+            bt = BT[b]
+            par = lambda: chrom_parent(GENOME)  # noqa: E731
+            ex = [(2, 11), (14, 23)] if two_exons else [(2, 11)]
+            q = {"product": ["16S ribosomal RNA"]} if prod == 1 else ({"product": ["p1", "p2"], "note": ["n"]} if prod == 2 else None)
+            kw = dict(cds_starts=[2], cds_ends=[11], cds_frames=[CDSFrame.ZERO]) if bt is Biotype.protein_coding else {}
+            tx = TranscriptInterval([e[0] for e in ex], [e[1] for e in ex], PLUS, transcript_id="tx1", sequence_name="chr1", qualifiers=q, transcript_type=bt,
+                                    parent_or_seq_chunk_parent=par(), **kw)
+            gene = GeneInterval([tx], gene_id="gid", gene_symbol="sym", gene_type=bt, sequence_name="chr1", qualifiers=q, parent_or_seq_chunk_parent=par())
+            coll = AnnotationCollection(genes=[gene], sequence_name="chr1", parent_or_seq_chunk_parent=par())
+            before = coll.to_dict()
+            outs = []
+            for _ in range(3):
+                buf = io.StringIO()
+                with warnings.catch_warnings():
+                    warnings.simplefilter("ignore")
+                    collection_to_tbl([coll], buf, random_seed=5, genbank_flavor=[GenbankFlavor.EUKARYOTIC, GenbankFlavor.PROKARYOTIC][flavor])
+                outs.append(buf.getvalue())
+                if coll.to_dict() != before:
+                    return False
+            return outs[0] == outs[1] == outs[2] and outs[0].startswith(">Features chr1")
+
+    return fn, len(BT)
+
+
 def reproducible_fn():
     def fn(seed):
         seed = concretize(seed)
@@ -338,6 +412,11 @@ def obligations(tier):
                                 "block, whichever strand), partial marks and pseudo per the reading-frame model, both blocks listed 5'->3'",
                            bounds="48-nt genome, start 0..2, exon lengths 1..9 each (codons and stop codons split by the intron included), start frames 0..2 with the 5' exon longer than the start offset (realised)",
                            examples=[dict(es=1, l0=4, l1=8, f0=0), dict(es=0, l0=8, l1=1, f0=0)]))
+        out.append(Obl("isoforms_same_cds_bounds_%s" % sn, isoforms_fn(strand, 11), dict(a1=int, a2=int, f0=int, ee=int),
+                       lambda a1, a2, f0, ee: 3 <= a1 and a1 <= 8 and 3 <= a2 and a2 <= 8 and 0 <= f0 and f0 <= 2 and 22 <= ee and ee <= 30, budget=400, cost=60,
+                       desc="two coding isoforms sharing CDS start, end and start frame but differing in an internal exon edge: the partial marks of each isoform's CDS and "
+                            "mRNA are those of its own reading frame (nothing is shared between isoforms through their CDS bounds)",
+                       bounds="first-exon lengths 3..8 each, start frames 0..2, transcript end 22..30 on the 48-nt genome (realised)", examples=[dict(a1=6, a2=7, f0=0, ee=27)]))
         out.append(Obl("adjacent_cds_blocks_%s" % sn, adjacent_cds_fn(strand), dict(cs=int, l0=int, l1=int, fa=int, fb=int),
                        lambda cs, l0, l1, fa, fb: 2 <= cs and cs <= 5 and 3 <= l0 and l0 <= 8 and 3 <= l1 and l1 <= 8 and 0 <= fa and fa <= 2 and 0 <= fb and fb <= 2,
                        budget=400, cost=90,
@@ -348,6 +427,12 @@ def obligations(tier):
                    budget=300, cost=30, stubs=dict(tokens=True),
                    desc="locus tags over a file of two sequences: k-th gene gets prefix_(k*step) (unique, increasing by the requested step); one header per sequence",
                    bounds="2 collections x 1..2 genes, SYMBOLIC step >= 1", examples=[dict(jump=5, ngenes=2)]))
+    et, nbt = export_twice_fn()
+    out.append(Obl("export_repeatable_model_untouched", et, dict(b=int, two_exons=bool, prod=int, flavor=int),
+                   (lambda nbt: (lambda b, two_exons, prod, flavor: 0 <= b and b < nbt and 0 <= prod and prod <= 2 and 0 <= flavor and flavor <= 1))(nbt), budget=300, cost=20,
+                   desc="exporting one in-memory collection three times with the same seed (rRNA / tRNA / ncRNA / coding genes, with and without product qualifiers, "
+                        "single- and two-exon, both flavours) gives identical text and leaves the collection's dictionary form unchanged",
+                   bounds="5 biotypes x exon count x 3 qualifier patterns x 2 flavours (realised)", examples=[dict(b=0, two_exons=False, prod=1, flavor=0), dict(b=3, two_exons=True, prod=2, flavor=1)]))
     out.append(Obl("seeded_output_reproducible", reproducible_fn(), dict(seed=int), lambda seed: 1 <= seed and seed <= 3, budget=120, cost=10,
                    desc="two exports with the same random_seed are byte-identical", bounds="seeds 1..3", examples=[dict(seed=2)]))
     return out
